@@ -1,4 +1,4 @@
-CONSTANTS Scripts <- ScriptsT  Seqs <- SeqsQ  Stacks <- StacksT  OutChoices <- OutsT  MaxIn = 2  MaxOut = 2
+CONSTANTS Scripts <- ScriptsT  Seqs <- SeqsQ  Stacks <- StacksT  OutChoices <- OutsT  MaxIn = 2  MaxOut = 1
 TrailKinds = {"none", "zero", "one", "last", "copy", "prefix", "zeros"}  Deviation = "none"
 INIT Init
 NEXT Next
